@@ -177,8 +177,11 @@ def election_case(
     else:
         if draw(st.integers(0, 3)) == 0:
             mp["beta"] = draw(st.sampled_from([1, 2, 0.5]))
-        if draw(st.integers(0, 3)) == 0:
-            mp["winsorize"] = draw(st.booleans())
+        # the winsorised scale bootstrap costs seconds per (group, bound): keep it to small requests
+        if draw(st.integers(0, 7)) == 0:
+            mp["winsorize"] = bool(len(alphas) == 1 and len(estimands) == 1 and draw(st.booleans()))
+            if mp["winsorize"]:
+                aggregates = aggregates[:2]
     outl = draw(st.sampled_from(list(outliers)))
     mp["fit_margin_outlier_model"] = outl
     mp["fit_turnout_outlier_model"] = outl
